@@ -94,7 +94,7 @@ func judge(c *Ctx, sub string, j *job, o *outcome, predictedPanic string, extraA
 		return false
 	case "timeout":
 		c.Stat(sub + ":timeout-confirmed-alone")
-		c.Fail("oracle", fmt.Sprintf("C11:%s:timeout", sub), fmt.Sprintf("no answer within %v on %d input bytes (at %s)", jobTimeout(c), len(j.Data)/2, topRepoFrame(o.Stderr)), rp)
+		c.Fail("oracle", fmt.Sprintf("C11:%s:timeout%s", sub, keyHint), fmt.Sprintf("no answer within the time allowance on %d input bytes (at %s)", len(j.Data)/2, topRepoFrame(o.Stderr)), rp)
 		c.Stat(sub + ":class:timeout")
 		return false
 	}
@@ -140,11 +140,11 @@ type zngSeed struct {
 	frames []ZFrame
 }
 
-func makeSeed(r *rand.Rand) zngSeed {
+func makeSeed(r *rand.Rand, idx int) zngSeed {
 	g := NewZGen(r, 1+r.Intn(2), 1+r.Intn(3))
 	n := 1 + r.Intn(10)
 	var buf bytes.Buffer
-	w := zngio.NewWriterWithOpts(nopCloser{&buf}, zngio.WriterOpts{Compress: r.Intn(3) == 0, FrameThresh: []int{1, 16, 64, 1000}[r.Intn(4)]})
+	w := zngio.NewWriterWithOpts(nopCloser{&buf}, zngio.WriterOpts{Compress: idx%2 == 0, FrameThresh: []int{1, 16, 64, 1000}[r.Intn(4)]})
 	for i := 0; i < n; i++ {
 		v, _ := g.Value()
 		if len(v.Bytes()) > 2000 {
@@ -154,6 +154,10 @@ func makeSeed(r *rand.Rand) zngSeed {
 		if r.Intn(5) == 0 {
 			w.EndStream()
 		}
+	}
+	if idx%2 == 0 {
+		// something LZ4 will actually compress
+		w.Write(zed.NewString(strings.Repeat("abcd", 40+r.Intn(40))))
 	}
 	w.Close()
 	data := append([]byte{}, buf.Bytes()...)
@@ -325,6 +329,32 @@ func mutate(r *rand.Rand, s zngSeed, budget int) []mutant {
 		}
 		off += len(f.Raw)
 	}
+	// boundary integers in the headers of the frames as written: frame length and, for compressed
+	// frames, the declared uncompressed size
+	off = 0
+	for _, f := range s.frames0() {
+		if !f.EOS {
+			_, n := uvAt(s.data, off+1)
+			if n > 0 {
+				how := "splice-framelen-raw"
+				if f.Compressed {
+					how = "splice-compframelen"
+				}
+				for _, v := range spliceVals {
+					add(spliceAt(s.data, off+1, n, binary.AppendUvarint(nil, v)), how)
+				}
+				if f.Compressed {
+					p := off + 1 + n + 1
+					if _, n2 := uvAt(s.data, p); n2 > 0 {
+						for _, v := range append([]uint64{65, 4097, 1<<20 + 1, 1<<22 + 1, 1 << 30, 1<<30 + 1, 1 << 40}, spliceVals...) {
+							add(spliceAt(s.data, p, n2, binary.AppendUvarint(nil, v)), "splice-compsize")
+						}
+					}
+				}
+			}
+		}
+		off += len(f.Raw)
+	}
 	// boundary integers at every varint position of the plain stream; the result is sent plain
 	// and, for some, re-compressed (mutated plaintext inside valid LZ4)
 	vps := varintPositions(s.plain)
@@ -378,9 +408,21 @@ func mutate(r *rand.Rand, s zngSeed, budget int) []mutant {
 		}
 	}
 	if len(out) > budget {
-		// keep the unmutated one and a seeded sample of the rest
-		r.Shuffle(len(out)-1, func(i, j int) { out[i+1], out[j+1] = out[j+1], out[i+1] })
-		out = out[:budget]
+		// keep the unmutated one, every mutant of a compressed frame's declared size, and a
+		// seeded sample of the rest
+		var keep, rest []mutant
+		for i, m := range out {
+			if i == 0 || m.how == "splice-compsize" || m.how == "splice-compframelen" {
+				keep = append(keep, m)
+			} else {
+				rest = append(rest, m)
+			}
+		}
+		r.Shuffle(len(rest), func(i, j int) { rest[i], rest[j] = rest[j], rest[i] })
+		if n := budget - len(keep); n > 0 && n < len(rest) {
+			rest = rest[:n]
+		}
+		out = append(keep, rest...)
 	}
 	return out
 }
@@ -553,11 +595,11 @@ func runZNG(c *Ctx, only *replay) {
 	if only != nil {
 		cases = append(cases, &zngCase{m: mutant{how: "replay"}, j: only.Job})
 	} else {
-		nseeds := c.N(5, 60)
-		per := c.N(220, 700)
+		nseeds := c.N(5, 40)
+		per := c.N(220, 600)
 		id := 0
 		for s := 0; s < nseeds; s++ {
-			seed := makeSeed(r)
+			seed := makeSeed(r, s)
 			for _, m := range mutate(r, seed, per) {
 				j := &job{ID: id, Kind: "zng", Data: hex.EncodeToString(m.data), WantVals: true}
 				pickOpts(r, j, len(m.data))
@@ -750,7 +792,7 @@ func runValidate(c *Ctx, only *replay) {
 		cases = append(cases, &vcase{only.Job, TySexp(t), typeHasSet(t)})
 	} else {
 		id := 0
-		for s := 0; s < c.N(50, 3000); s++ {
+		for s := 0; s < c.N(50, 600); s++ {
 			g := NewZGen(r, 1, 1+r.Intn(3))
 			zctx := g.Ctxs[0]
 			t := g.Type(zctx, g.MaxDepth)
@@ -762,7 +804,9 @@ func runValidate(c *Ctx, only *replay) {
 			ty := TySexp(t)
 			hs := typeHasSet(t)
 			add := func(b []byte, null bool) {
-				j := &job{ID: id, Kind: "validate", Data: hex.EncodeToString(b), TypeVal: tvhex}
+				// a value of type `type` is a leaf Validate does not look at; the ZSON formatter
+				// decodes it without limits (see the witness), so such values are not consumed here
+				j := &job{ID: id, Kind: "validate", Data: hex.EncodeToString(b), TypeVal: tvhex, NoConsume: strings.Contains(ty, "(p 28)")}
 				if null {
 					j.Format = "null"
 				}
@@ -855,7 +899,7 @@ func runTypeValue(c *Ctx, only *replay) {
 		jobs = append(jobs, only.Job)
 	} else {
 		id := 0
-		for s := 0; s < c.N(5, 400); s++ {
+		for s := 0; s < c.N(5, 40); s++ {
 			g := NewZGen(r, 1, 1+r.Intn(3))
 			t := g.Type(g.Ctxs[0], g.MaxDepth)
 			tv := zed.EncodeTypeValue(t)
@@ -1033,6 +1077,25 @@ func runVNG(c *Ctx, only *replay) {
 
 // ---- text readers ---------------------------------------------------------------------------------------
 
+// panicClass: a coarse class of a Go runtime panic message.
+func panicClass(s string) string {
+	switch {
+	case strings.Contains(s, "index out of range"):
+		return "index"
+	case strings.Contains(s, "slice bounds out of range"):
+		return "slice"
+	case strings.Contains(s, "nil pointer dereference"):
+		return "nil"
+	case strings.Contains(s, "interface conversion"):
+		return "conv"
+	case strings.Contains(s, "stack overflow"), strings.Contains(s, "stack exceeds"):
+		return "stack"
+	case strings.Contains(s, "out of memory"), strings.Contains(s, "makeslice"):
+		return "mem"
+	}
+	return "other"
+}
+
 var textSeeds = map[string][]string{
 	"zson": {
 		`{a:1,b:"s",c:[1,2,3],d:|[1,2]|,e:|{"k":1}|,f:<int64>,g:1.5,h:10.0.0.1,i:10.0.0.0/8,j:2020-01-01T00:00:00Z,k:1h,l:0x0102,m:null,n:error("x")}`,
@@ -1117,7 +1180,7 @@ func runText(c *Ctx, only *replay) {
 		makeTextSeeds(r)
 		formats := []string{"zson", "zjson", "json", "csv", "tsv", "zeek", "line"}
 		id := 0
-		for i := 0; i < c.N(400, 30000); i++ {
+		for i := 0; i < c.N(400, 8000); i++ {
 			f := formats[r.Intn(len(formats))]
 			seeds := textSeeds[f]
 			s := seeds[r.Intn(len(seeds))]
@@ -1128,7 +1191,7 @@ func runText(c *Ctx, only *replay) {
 			if r.Intn(3) == 0 {
 				format = "auto"
 			}
-			jobs = append(jobs, &job{ID: id, Kind: "text", Format: format, Data: hex.EncodeToString([]byte(s))})
+			jobs = append(jobs, &job{ID: id, Kind: "text", Format: format, Family: f, Data: hex.EncodeToString([]byte(s))})
 			id++
 		}
 	}
@@ -1137,7 +1200,7 @@ func runText(c *Ctx, only *replay) {
 		o := &outs[i]
 		c.Eval(fmt.Sprintf("text/%x", hashOf(j)))
 		c.Stat("text:format:" + j.Format)
-		judge(c, "text", j, o, "", 0, "")
+		judge(c, "text", j, o, "", 0, ":"+j.Family+":"+panicClass(o.Err+o.Stderr))
 	}
 }
 
@@ -1201,7 +1264,7 @@ func runQuery(c *Ctx, only *replay) {
 		jobs = append(jobs, only.Job)
 	} else {
 		loadQuerySeeds()
-		for i := 0; i < c.N(200, 12000); i++ {
+		for i := 0; i < c.N(200, 3000); i++ {
 			q := querySeeds[r.Intn(len(querySeeds))]
 			if i >= len(querySeeds) {
 				q = mutateQuery(r, q)
@@ -1215,7 +1278,7 @@ func runQuery(c *Ctx, only *replay) {
 	for i, j := range jobs {
 		o := &outs[i]
 		c.Eval(fmt.Sprintf("query/%x", hashOf(j)))
-		judge(c, "query", j, o, "", 0, "")
+		judge(c, "query", j, o, "", 0, ":"+panicClass(o.Err+o.Stderr))
 	}
 }
 
@@ -1299,6 +1362,41 @@ func runWitness(c *Ctx) {
 		j := &job{ID: 0, Kind: "validate", Data: hex.EncodeToString(b.Bytes()), TypeVal: hex.EncodeToString(zed.EncodeTypeValue(set))}
 		rp := &replay{Sub: "validate", Job: j}
 		runValidate(c, rp)
+	}
+	// 5a. a `type` value is a leaf for Validate; the ZSON formatter then decodes a union type value
+	//     that announces 2^31 members without any limit
+	{
+		zctx := zed.NewContext()
+		et := zctx.LookupTypeError(zed.TypeType)
+		j := &job{ID: 0, Kind: "validate", Data: "228080808008220106", TypeVal: hex.EncodeToString(zed.EncodeTypeValue(et))}
+		r := &runner{}
+		o := r.do(j, 8*time.Second)
+		r.stop()
+		c.Eval("witness/validate-typevalue-format")
+		switch {
+		case o.Status == "timeout" || (o.Status == "ok" && o.Alloc > 128<<20) || o.Status == "crash" || strings.HasPrefix(o.After, "panic"):
+			c.Fail("oracle", "C11:validate:unsound:leaf:typevalue-format", fmt.Sprintf("a 9-byte value of type error(type) is accepted by Validate; formatting it does not finish in 8 s / allocates without bound (status %s, %d MiB): the type value announces a union of 2^31 members", o.Status, o.Alloc>>20), replay{Sub: "witness", Job: j})
+		case o.Status == "ok" && !o.Accept:
+			c.Note("witness validate-typevalue-format: Validate now rejects the value")
+		}
+	}
+	// 5b. the query parser on a keyword / identifier that starts with an escape; ZJSON enum value
+	//     outside its (empty) symbol list
+	{
+		js := []*job{
+			{ID: 0, Kind: "query", Data: hex.EncodeToString([]byte(`\+`))},
+			{ID: 1, Kind: "query", Data: hex.EncodeToString([]byte(`\Inf`))},
+			{ID: 2, Kind: "text", Format: "zjson", Family: "zjson", Data: hex.EncodeToString([]byte(`{"type":{"kind":"enum","id":30,"symbols":[]},"value":"0"}`))},
+		}
+		for i, o := range runJobs(js, 2, jobTimeout(c)) {
+			o := o
+			c.Eval(fmt.Sprintf("witness/parser/%d", i))
+			hint := ":" + panicClass(o.Err+o.Stderr)
+			if js[i].Kind == "text" {
+				hint = ":" + js[i].Family + hint
+			}
+			judge(c, js[i].Kind, js[i], &o, "", 0, hint)
+		}
 	}
 	// 6. VNG header: DataSize is never checked (the check tests MetaSize twice)
 	{
